@@ -4,9 +4,9 @@ import json, os, glob
 ALLOWED_AXIOMS = []   # no axiom is expected under any property theorem
 
 TRUSTED_BASE = [
-    "Coq 8.16.1 kernel (coqc; full .vo build, no -vos/-vok); vm_compute is used inside Example/witness proofs; native_compute is not used",
+    "Coq 8.16.1 kernel (coqc; full .vo build, no -vos/-vok); vm_compute is used inside Example/witness proofs; native_compute is not used; in the thorough tier coqchk -o (the independent checker) re-checks the property file's .vo with everything it depends on and must report no axioms, no type-in-type, no unsafe fixpoints, no assumed positivity (evidence: coqchk)",
     "no Axiom/Parameter/Admitted in the development (scanned on every run); Print Assumptions of every property theorem recorded in axioms_per_theorem",
-    "extraction plugin with ExtrOcamlBasic + ExtrOcamlString only (their built-in Extract Inductive for bool/option/unit/list/prod/sumbool/sumor/ascii->char/string->char list; no Extract Constant of our own), OCaml 4.13.1, coq/extract/driver.ml (I/O only); on every run a sample of the run's own case lines (16 quick / 160 thorough) is re-evaluated by the kernel (vm_compute of GTS.Main.run_line_case inside coqc) and must equal the extracted driver's output line for line (evidence: extraction_crosscheck)",
+    "extraction plugin with ExtrOcamlBasic + ExtrOcamlString only (their built-in Extract Inductive for bool/option/unit/list/prod/sumbool/sumor/ascii->char/string->char list; no Extract Constant of our own), OCaml 4.13.1, coq/extract/driver.ml (I/O only); on every run a sample of the run's own case lines (16 quick / 64 thorough) is re-evaluated by the kernel (vm_compute of GTS.Main.run_line_case inside coqc) and must equal the extracted driver's output line for line (evidence: extraction_crosscheck)",
     "correspondence harness /verif/harness (generators, AST serialiser sx.rs, canonical renderers) and the Coq-side reader/renderer Sexp.v / Render.v / Run.v: a bug there can hide a disagreement, not create a theorem",
     "hand-written Gallina model of the Rust code (coq/theories): tied to /repo's working tree only by differential execution on the generated inputs of this run (distribution in input_distribution)",
     "graphql-parser (parsing, positions) is outside the model: implementation and model both start from the AST the real parser produced",
@@ -69,9 +69,75 @@ def load_known_findings(root):
         return []
 
 
+def top_level_operation_names(text):
+    """names of the operations of a document text (None for anonymous ones), by a small scanner
+    that tracks brace depth outside strings and comments"""
+    names = []
+    i, n, depth = 0, len(text), 0
+    expect_def = True
+    while i < n:
+        c = text[i]
+        if c == "#":
+            while i < n and text[i] != "\n":
+                i += 1
+            continue
+        if c == '"':
+            if text.startswith('"""', i):
+                j = text.find('"""', i + 3)
+                i = n if j < 0 else j + 3
+                continue
+            i += 1
+            while i < n and text[i] != '"':
+                i += 2 if text[i] == "\\" else 1
+            i += 1
+            continue
+        if c == "{":
+            if depth == 0 and expect_def:
+                names.append(None)          # shorthand query
+            depth += 1
+            expect_def = False
+            i += 1
+            continue
+        if c == "}":
+            depth -= 1
+            if depth == 0:
+                expect_def = True
+            i += 1
+            continue
+        if depth == 0 and expect_def and (c.isalpha() or c == "_"):
+            j = i
+            while j < n and (text[j].isalnum() or text[j] == "_"):
+                j += 1
+            word = text[i:j]
+            if word in ("query", "mutation", "subscription"):
+                k = j
+                while k < n and text[k] in " \t\r\n,":
+                    k += 1
+                m = k
+                while m < n and (text[m].isalnum() or text[m] == "_"):
+                    m += 1
+                names.append(text[k:m] if m > k else None)
+            expect_def = False
+            i = j
+            continue
+        i += 1
+    return names
+
+
+def has_same_named_operations(text):
+    names = top_level_operation_names(text or "")
+    return len(names) != len(set(names))
+
+
 def match_known(known, pid, meta):
-    """a disagreement with the oracle is a known finding iff the oracle itself classified it
-    (EXEMPT lines); nothing is matched here by text, so an unlisted violation is never hidden"""
+    """A disagreement is a known finding only if it falls in a class LISTED in known_findings.json
+    (status 'open: ...') whose membership test is decided here from the input alone; a violation
+    outside every listed class is never hidden."""
+    for k in known:
+        if k.get("property") != pid or not str(k.get("status", "")).startswith("open:"):
+            continue
+        if k.get("class") == "same-named-operations" and has_same_named_operations(meta.get("doc", "")):
+            return k["status"][len("open:"):].strip()
     return None
 
 
